@@ -18,14 +18,14 @@ CHECKS = {
     "C10": (
         "exploration",
         "(a) differential monitor: patched Template.compile_nodelist/render vs the saved original Django methods on the same generated stock template families; (b) metamorphic monitor: extends/block/include family of a component program vs the hand-flattened program",
-        "(a) 2k (quick) / 100k (thorough) generated stock families (extends chains, includes, blocks with block.super, for/if/with/autoescape/firstof/cycle, custom tags/filters of a plain Library with quoted arguments, ~8% erroneous) x 2 contexts x engine.debug on/off are compiled and rendered with the patched methods and with the originals captured before django.setup(): output or exception text, Context layers and render-context depth must be identical. (b) 2k / 60k E1 programs whose page / component templates are split into base+child(+grandchild)+include families must render exactly like the flattened program in both modes. One listed finding (block state shared between nested extends-based templates) is attributed by a rename-based defect model.",
+        "(a) 2k (quick) / 100k (thorough) generated stock families (extends chains, includes, blocks with block.super, for/if/with/autoescape/firstof/cycle, custom tags/filters of a plain Library with quoted arguments, ~8% erroneous) x 2 contexts x engine.debug on/off are compiled and rendered with the patched methods and with the originals captured before django.setup(): output or exception text, Context layers and render-context depth must be identical. (b) 4k / 60k E1 programs whose page / component templates are split - at the top level and inside fill bodies, slot defaults and loop bodies - into base+child(+grandchild)+include families (30% with every page-level tag written through the dynamic component) must render exactly like the flattened program in both modes; a monitor on BlockNode.render excludes families that render a block inside its own render. One listed finding (block state shared between nested extends-based templates) is attributed by a rename-based defect model.",
         "(a) trusts that swapping the two class attributes restores stock behaviour (asserted: the saved functions are Django's own); (b) equivalence is by construction under Django's documented semantics.",
         "DESIGN.md §2 C10",
     ),
     "C03": (
         "exploration",
         "reference-interpreter monitor on binding-site-identifying output (every bound value names its binding site), two page contexts per program (2-run non-interference), caller-Context snapshot monitor; listed findings attributed by exact or token-level defect models",
-        "12k (quick) / 150k (thorough) E1 programs in the scope flavour (x/y/z bound by page context, component data, with/for around tags, between tag and fill and inside templates, kwargs, slot-data aliases, `only`) are rendered in both modes with two page contexts; every printed variable must show the binding the statement selects; the caller's Context (layers and render-context depth) must be unchanged after each top-level render. Four defects of the pinned tree are listed findings (loop layer forwarded into isolated components; `only`+django hides outer variables from fills; {{ default }} content sees the fill's captured layer; placement of the fill's captured layer) with mechanism-keyed classifiers; any other mismatch is a violation.",
+        "12k (quick) / 150k (thorough) E1 programs in the scope flavour (x/y/z bound by page context, component data, with/for around tags, between tag and fill and inside templates, kwargs, slot-data aliases, `only`) are rendered in both modes with two page contexts; every printed variable must show the binding the statement selects; the caller's Context (layers and render-context depth) must be unchanged after each top-level render. Two defects of the pinned tree remain listed findings (loop layer forwarded into isolated components; placement / merge order of the layer captured for a fill) with mechanism-keyed classifiers; six further scoping defects were repaired in the repository; any other mismatch is a violation.",
         "Reads the statement leaves open (with between tag and fill in isolated mode; names bound by intermediate components / around the slot in django mode) are not judged; see DESIGN.md §4.",
         "DESIGN.md §2 C03, Appendix A/B",
     ),
@@ -54,7 +54,7 @@ CHECKS = {
         "exploration",
         "reference-interpreter monitor on parsed final HTML: per element occurrence the set of data-djc-id markers vs the instances for which the element is top-level output; id echo links model instances to real ids; deep root chains",
         "9k (quick) / 100k (thorough) E1 programs built from uniquely named elements (0..n root elements, text-only roots, nested elements, components as roots, components in loops/slots/fills) are rendered in both modes; the final HTML is parsed and every element's marker set must equal the interpreter's instance set, with echoed Component.id == marker id and all ids distinct; root chains of depth 50-300 (quick) / 500-2000 (thorough) must render without recursion error with the leaf roots carrying every id of the chain.",
-        "html.parser is the trusted reader; the dynamic wrapper is not exercised (its id cannot be echoed).",
+        "html.parser is the trusted reader; ids of dynamic-component wrappers are not echoed and are solved for (one consistent, distinct, otherwise unused id per wrapper on exactly the roots of its target); classes may call OtherClass.render() inside get_context_data() (nested root renders).",
         "DESIGN.md §2 C14",
     ),
     "C05": (
@@ -67,7 +67,7 @@ CHECKS = {
     "C01": (
         "exploration",
         "reference-interpreter monitor on token-identifying output of generated component programs, three render routes, logical divergence guard on component instantiations, AST shrinker for witnesses",
-        "9k (quick) / 300k (thorough) generated programs (free growth + decorated skeletons of the hard compositions: slot in default content under a foreign component, fill forwarding 2-4 levels, one slot name filled at three levels, root chains, slots in loops with dynamic names; ~8% erroneous) are rendered by the real library in django and isolated mode through plain tags and through the dynamic component, plus Component.render(slots=str|func) for the first class; every output (or exception class) must equal the reference interpreter's; more than 20x the predicted component instantiations is reported as non-termination.",
+        "9k (quick) / 160k (thorough) generated programs (free growth + decorated skeletons of the hard compositions: slot in default content under a foreign component, fill forwarding 2-4 levels, one slot name filled at three levels, root chains, slots in loops with dynamic names; ~8% erroneous) are rendered by the real library in django and isolated mode through plain tags and through the dynamic component, plus Component.render(slots=str|func) for the first class; every output (or exception class) must equal the reference interpreter's; more than 20x the predicted component instantiations is reported as non-termination.",
         "Trusts the ~300-line reference interpreter (vf/model/interp.py), written from the statement; programs the statement leaves open are skipped and counted.",
         "DESIGN.md §2 C01, §1 E1, Appendix A/B",
     ),
@@ -109,14 +109,14 @@ CHECKS = {
     "C12": (
         "exploration",
         "exception-type monitor + sys.monitoring LINE-event step budget (raises from the callback) + doubling-ratio monitor + per-parse alarm + serialise/re-parse round trip, over exhaustive short strings, random long strings, mutations of valid tags and whole templates",
-        "Every string over a 22-symbol syntax alphabet up to length 4 (quick) / 5, plus length 6 over 14 structural symbols (thorough), is fed to parse_tag and compiled inside slot/component/html_attrs/provide/fill/custom tags; plus random strings to length 200, single-edit mutations of grammar-generated tags, generated whole templates and scaled families. Any exception other than TemplateSyntaxError, a LINE-event count above 60n^2+4000n+20000, a doubling ratio above 4.5 or a 20 s alarm is a violation; grammar-generated tags must survive serialise -> re-parse unchanged.",
-        "C-level regex time is only bounded by the alarm; memory is not separately measured (a step bound bounds allocation by the scanners).",
+        "Every string over a 22-symbol syntax alphabet up to length 4 (quick) / 5, plus length 6 over 14 structural symbols (thorough), is fed to parse_tag and compiled inside slot/component/html_attrs/provide/fill/custom tags; plus random strings to length 200, single-edit mutations of grammar-generated tags, generated whole templates and scaled families (incl. unterminated strings full of escapes / long plain tails, the shapes on which an ambiguous string regex backtracks exponentially). Any exception other than TemplateSyntaxError, a LINE-event count above 60n^2+4000n+20000, a doubling ratio above 4.5 or a 20 s alarm is a violation; grammar-generated tags must survive serialise -> re-parse unchanged.",
+        "C-level regex time is only bounded by the alarm (a shard ends after 5 alarms); memory is not separately measured (a step bound bounds allocation by the scanners). One listed finding: Django's own {% verbatim %} AttributeError, attributed only when unpatched Django fails identically.",
         "DESIGN.md §2 C12",
     ),
     "C08": (
         "exploration",
         "by-construction oracle over typed document pieces; CSS/JS strings taken from the implementation on a canonical document; type-preservation and middleware pass-through monitors",
-        "150k (quick) / 2M (thorough) documents assembled from text (non-ASCII, look-alike tags/markers/placeholders), </head> / </body> in any order and whitespace/case variants, placeholders in every emitted form and markers of real rendered components are pushed through render_dependencies (str, SafeString, UTF-8 and latin-1 bytes; document and fragment) and the middleware; the output must equal the pieces minus markers/placeholders with the generated tags at the documented positions, with the input type preserved; non-HTML and streaming responses must come back untouched.",
+        "150k (quick) / 2M (thorough) documents assembled from text (non-ASCII, look-alike tags/markers/placeholders), </head> / </body> in any order and whitespace/case variants, placeholders in every emitted form and markers of real rendered components (whose inline js/css contain non-ASCII text) are pushed through render_dependencies (str, SafeString, UTF-8 and latin-1 bytes compared byte for byte; document and fragment) and the middleware; the output must equal the pieces minus markers/placeholders with the generated tags at the documented positions, with the input type preserved; non-HTML and streaming responses must come back untouched.",
         "Trusts the piece-wise construction (a guard regenerates documents whose concatenation forms sensitive substrings across piece boundaries); marker comments always name registered, rendered components.",
         "DESIGN.md §2 C08",
     ),
